@@ -306,6 +306,7 @@ class Facts:
         self.adts = {}
         self.crates = {}
         self.skipped = {}
+        self.skipped_dp = set()       # def paths of macro-generated functions whose bodies were not exported
         for c in (crates or WORKSPACE_CRATES):
             fn = os.path.join(facts_dir, c + ".json")
             if not os.path.exists(fn):
@@ -320,6 +321,8 @@ class Facts:
                     self.adts[k] = v
             for sk in d["skipped"]:
                 self.skipped[sk["path"]] = sk["why"]
+                if sk.get("dp") and sk["why"] == "from_expansion":
+                    self.skipped_dp.add(sk["dp"])
         self._const_cache = {}
         from .anchors import reanchor
         self.moved = reanchor(self)
